@@ -8,6 +8,7 @@ package main
 
 import (
 	"bytes"
+	"crypto"
 	crand "crypto/rand"
 	"fmt"
 	"math/big"
@@ -115,6 +116,12 @@ func runSign(d *big.Int, aux, msg []byte, route int, mode string) string {
 	}
 	if mm := checkPubKey(pk2, ref.BaseMul(d)); mm != "" {
 		return "after verify the imported public key: " + mm
+	}
+	// the crypto.Signer options are not part of BIP-340: a message of ANY length is signed to the same bytes under every option value
+	for oi, o := range []crypto.SignerOpts{crypto.SHA256, crypto.SHA512, crypto.Hash(0), &secec.ECDSAOptions{}, &secec.ECDSAOptions{Hash: crypto.SHA256, Encoding: secec.EncodingCompact, SelfVerify: true}} {
+		if sigO, err := sk.Sign(sc.New(), m, o); err != nil || !bytes.Equal(sigO, want) {
+			return fmt.Sprintf("Sign with signer options #%d (%T) on a %d-byte message gives %x (err=%v), BIP-340 Sign = %x", oi, o, len(msg), sigO, err, want)
+		}
 	}
 	if sig2, err := sk.Sign(sc.New(), m, nil); err != nil || !bytes.Equal(sig2, want) {
 		return fmt.Sprintf("signing the same message again on the same key object gives %x (err=%v), BIP-340 Sign = %x", sig2, err, want)
@@ -300,7 +307,11 @@ func main() {
 		maxLen = 2300
 	}
 	R.Bound("every_message_length", fmt.Sprintf("0..%d", maxLen))
+	lens := []int{65535, 65536, 65537, 1 << 17} // and a few far beyond: no upper limit on a message
 	for L := 0; L <= maxLen; L++ {
+		lens = append(lens, L)
+	}
+	for _, L := range lens {
 		m := make([]byte, L)
 		for i := range m {
 			m[i] = byte(i*29 + L)
